@@ -317,8 +317,17 @@ func runC14(c *core.Ctx) {
 				}
 				core.Instrs(fn, func(in ssa.Instruction) {
 					if mu, ok := in.(*ssa.MapUpdate); ok && mu.Map == ssa.Value(fn.Params[2]) {
-						if l := core.InnermostLoop(fn, mu.Block()); l == nil || !l.Header.Dominates(eCall.Block()) {
+						l := core.InnermostLoop(fn, mu.Block())
+						if l == nil || !l.Header.Dominates(eCall.Block()) {
 							okE, whyE = false, "the eligible removal does not wait for the capping loop"
+							return
+						}
+						// every shard's cap is reconsidered: no pass of the capping loop gets round the recomputation
+						esc, path := core.PathQ{Fn: fn, FromBlk: firstBodyBlock(l),
+							Via:    func(x ssa.Instruction) bool { v, isV := x.(ssa.Value); return isV && isMin(v) != nil },
+							Target: func(x ssa.Instruction, _ *ssa.BasicBlock) bool { return x == l.Header.Instrs[0] }}.Escape()
+						if esc != nil {
+							okE, whyE = false, "a pass of the capping loop can skip the recomputation ("+c.P.PathString(path)+"): that shard keeps the cap it had before the waiting removal and spends its surplus twice"
 						}
 					}
 				})
